@@ -203,6 +203,12 @@ func (fs FileServer) serveFile(w http.ResponseWriter, r *http.Request) (int, err
 			continue
 		}
 
+		// only a regular file can stand in for the requested one
+		if encodedFileInfo.IsDir() {
+			encodedFile.Close()
+			continue
+		}
+
 		// a hidden file must not be served under another file's name
 		if fs.IsHidden(encodedFileInfo) {
 			encodedFile.Close()
